@@ -30,11 +30,11 @@ Dashes14(name) ==
     LET n == NDelims(MainPieces(name)) IN {{}, 1..n} \cup (IF Quick THEN {} ELSE {{d} : d \in 1..n})
 
 Cases14 == UNION {{[s |-> name, D |-> D, style |-> style, padAt |-> P, ps |-> pst]
-                    : D \in Dashes14(name), style \in (IF Quick THEN {"sp", "none"} ELSE {"sp", "lf", "none", "ctl2"}), P \in PadSets(name), pst \in PadStyles}
+                    : D \in Dashes14(name), style \in (IF Quick THEN {"sp", "none", "bsl"} ELSE {"sp", "lf", "none", "ctl2", "bsl", "nonascii"}), P \in PadSets(name), pst \in PadStyles}
                   : name \in DOMAIN Corpus}
 
 \* the length plans: one run each; "total" plans need a single pad
-Lens == {0, 1, 4000, 20480} \cup (IF Big THEN {102400, 300000} ELSE {})
+Lens == {0, 1, 200, 4000, 20480} \cup (IF Big THEN {102400, 300000} ELSE {})
 Totals == {4095, 4096, 4097, 4098, 8192}
 PadTable(c, len, total) ==
     [k \in 1..MaxSym |-> IF k \in c.padAt THEN [len |-> len, style |-> c.ps, total |-> total]
